@@ -455,6 +455,9 @@ def m_len(I, st, args, dest_ty, *r):
         return IntV.top("usize", d, 1, ISIZE_MAX, exact=bool(len(v.tag) > 1 and v.tag[1]))
     # every length is attainable only for a container that is an unconstrained input of the analysed unit
     # (fresh value, input text); the length of a container produced by a callee or modified on the way is unknown
+    if v.kind == "top" and v.tag is not None and v.tag[0] == "input" and getattr(I, "pin_input_len", None) is not None:
+        # witness search: the analysis is restricted to input lines of one length (a sub-case of all inputs)
+        return IntV.const("usize", I.pin_input_len)
     free = v.kind == "top" and v.tag is not None and v.tag[0] in ("fresh", "input", "vec", "map")
     return IntV.top("usize", d, 0, ISIZE_MAX, exact=free)
 
@@ -799,10 +802,53 @@ def m_panic(I, st, args, dest_ty, fn, b, line, fref):
     return None
 
 
+def array_range_status(I, st, n, rng):
+    """`array[range]` on an array of known length n: (status, witness).  The sub-slice exists iff start <= end <= n
+    (inclusive forms: end < n).  proved needs both facts for every value; definite needs an end that is attainable
+    (exact interval, no later refinement of related values) above the length."""
+    if rng is None or rng.kind != "agg":
+        return "possible", None
+    kind = rng.name.split("<")[0].split("::")[-1]
+    f = [x for x in rng.fields]
+    lo = hi = None
+    incl = kind in ("RangeInclusive", "RangeToInclusive")
+    if kind in ("Range", "RangeInclusive") and len(f) >= 2:
+        lo, hi = f[0], f[1]
+    elif kind in ("RangeTo", "RangeToInclusive") and len(f) == 1:
+        hi = f[0]
+    elif kind == "RangeFrom" and len(f) == 1:
+        lo = f[0]
+    elif kind == "RangeFull":
+        return "proved", None
+    else:
+        return "possible", None
+    ints = [x for x in (lo, hi) if x is not None]
+    if any(x.kind != "int" for x in ints):
+        return "possible", None
+    limit = n - 1 if incl else n
+    top = hi if hi is not None else lo
+    if top.lo > limit:
+        return "definite", f"the range always ends at {top.lo} or beyond, the array has {n} elements"
+    if top.exact and I.lineage_clean(st, top) and top.hi > limit:
+        return "definite", f"range end up to {top.hi} (attainable), the array has {n} elements"
+    if top.hi <= limit:
+        if lo is None or hi is None or lo.hi <= hi.lo + (1 if incl else 0):
+            return "proved", None
+        if lo.aff is not None and hi.aff is not None:
+            dlt = hi.aff.sub(lo.aff) if hasattr(hi.aff, "sub") else None
+            if dlt is not None and dlt.is_const() and dlt.c + (1 if incl else 0) >= 0:
+                return "proved", None
+    return "possible", None
+
+
 def m_index_opaque(I, st, args, dest_ty, fn, b, line, fref):
-    """Vec/str/slice/HashMap Index: may panic; result unknown"""
+    """Vec/str/slice/HashMap Index: may panic; result unknown.  A range index into an array of known length is decided."""
     d = _deps(I, st, args)
-    I.event("assert", fn, b, line, akind="index:" + fref.get("def", "?"), status="possible", witness=None, vals=list(args), exp=False)
+    status, witness = "possible", None
+    m = re.match(r"^<\[[\w:]+; (\d+)\] as std::ops::Index(?:Mut)?<std::ops::Range\w*(?:<usize>)?>>::index", fref.get("inst") or "")
+    if m and len(args) > 1:
+        status, witness = array_range_status(I, st, int(m.group(1)), args[1])
+    I.event("assert", fn, b, line, akind="index:" + fref.get("def", "?"), status=status, witness=witness, vals=list(args), exp=False)
     if M.int_type(dest_ty):
         return IntV.top(dest_ty, d)
     inner = dest_ty[1:] if dest_ty.startswith("&") else dest_ty
